@@ -1114,6 +1114,13 @@ def spec_wrap_flush_word(ctx, make_exe):
                          f.name, tag + ": a word that does not fit closes the current line and drops the space")
                 post(exe, s2, z3.Implies(z3.Not(m.allow_overflow.e), z3.And(z3.ULE(p["line_len"], W), z3.ULE(p["maxlen"], W))),
                      f.name, tag + ": no line is wider than the block")
+                # continuation marking of preformatted lines (rich output tags the rest of a broken <pre> line):
+                # placing a word ends any earlier continuation; only breaking a <pre> line starts one
+                broke_pre = z3.And(z3.BoolVal(mode == "Pre"), z3.Not(fits))
+                post(exe, s2, z3.Implies(m.word_nonempty.e, p["pre_wrapped"] == broke_pre), f.name,
+                     tag + ": what follows is marked as a continuation exactly when a preformatted line had to be broken")
+                post(exe, s2, z3.Implies(z3.Not(m.word_nonempty.e), p["pre_wrapped"] == m.pre_wrapped.e), f.name,
+                     tag + ": the continuation mark is unchanged without a pending word")
     return {"function": f.name, "paths": total}
 
 
